@@ -244,6 +244,7 @@ func c15ConcurrentBody(capacity uint32, peerCloses bool) func() {
 		if peerCloses {
 			ths = append(ths, vrt.GoProc("peer-closer", 2, func() {
 				vrt.Point("wait-stream", func() bool { return w.p.s.GetActiveStreamCount() > 0 })
+				vrt.AnyMoment()
 				w.p.s.streamLock.Lock()
 				var victim *Stream
 				for _, s := range w.p.s.streams {
